@@ -76,7 +76,7 @@ def char_alphabet(seed):
     return ['&', '=', ',', '+', '%', z['h1'], z['h2'], z['hexl'], z['non'], '\x00', z['u2']]
 
 
-TOKENS = ['&', '=', ',', '+', 'a', '%', '%2C', '%2c', '%26', '%3D', '%2B', '%25', '%C3%A9', '%FF']
+TOKENS = ['&', '=', ',', '+', 'a', '%', '%2C', '%2c', '%26', '%3D', '%2B', '%25', '%C3%A9', '%FF', '%c3%aF', '%Bf']   # mixed-case hex pairs
 
 
 # --------------------------------------------------------------------------
